@@ -419,6 +419,7 @@ def neighbours(case: Case):
 PROP = Prop(
     pid="C04",
     lean_targets=["OFCore.Props.C04"],
+    unclaimed_diffs_binding=True,   # the model is a transcription outside the claim domain too (0 differences on every run so far)
     generate=generate, impl=impl, oracle=oracle, nontrivial=nontrivial,
     corpus=corpus, enumerate_thorough=enumerate_thorough, neighbours=neighbours,
     rule=("lines `per <op> <period> [args]` over periods whose start is drawn 60% from a boundary pool "
